@@ -451,7 +451,14 @@ def render(am, rng, allow_any=True, allow_split=True, force=None):
             c = rng.choice(cuts)
             classes = [full[:c], full[c:]]
             tags.add("inheritance")
-    return dict(classes=classes, tags=tags)
+    # --- callbacks given as bound methods of an object outside the machine instead of by name (the object is
+    # "armed" only after the class statement: a declaration style that worked on a copy of it would be seen)
+    p_bound = force.get("p_bound", rng.choice([0.0, 0.0, 0.4, 0.9]))
+    conv = {cid for _nm, cid in am["conv"]}
+    bound = sorted(n for n in range(1, am["ncb"] + 1) if n not in conv and rng.random() < p_bound)
+    if bound:
+        tags.add("bound_methods")
+    return dict(classes=classes, tags=tags, bound=bound)
 
 
 def _state_stmt(kind, run, i, rng):
@@ -627,11 +634,12 @@ def model_lines(prog, name):
 
 # ----------------------------------------------------------------------------- program -> Python source
 
-def _names(xs):
-    xs = [cbname(x) for x in xs]
-    if len(xs) == 1:
-        return repr(xs[0])
-    return repr(xs)
+def _names(xs, bound=frozenset()):
+    """callbacks by name; those in `bound` as bound methods of the object `EXT` that lives outside the machine"""
+    rs = [f"EXT.{cbname(x)}" if x in bound else repr(cbname(x)) for x in xs]
+    if len(rs) == 1:
+        return rs[0]
+    return "[" + ", ".join(rs) + "]"
 
 
 def python_source(am, prog, clsname="M"):
@@ -640,6 +648,7 @@ def python_source(am, prog, clsname="M"):
     lines = []
     sexpr = {}      # state k -> expression usable in the current class body
     nclasses = len(prog["classes"])
+    bound = frozenset(prog.get("bound", ()))
     for ci, cl in enumerate(prog["classes"]):
         last = ci == nclasses - 1
         cname = clsname if last else f"Base{ci}"
@@ -672,7 +681,7 @@ def python_source(am, prog, clsname="M"):
                 parts.append("internal=True")
             for g in GROUPS:
                 if kw[g]:
-                    parts.append(f"{g}={_names(kw[g])}")
+                    parts.append(f"{g}={_names(kw[g], bound)}")
             return ", ".join(parts)
 
         def tx(e):
@@ -702,9 +711,9 @@ def python_source(am, prog, clsname="M"):
             if s["final"]:
                 a.append("final=True")
             if s["enter"]:
-                a.append(f"enter={_names(s['enter'])}")
+                a.append(f"enter={_names(s['enter'], bound)}")
             if s["exit"]:
-                a.append(f"exit={_names(s['exit'])}")
+                a.append(f"exit={_names(s['exit'], bound)}")
             return "State(" + ", ".join(a) + ")"
 
         for st in cl:
@@ -806,4 +815,4 @@ def poison(prog, am, rng, kind):
     st = ("bare", ("to", a, [b], kw) if rng.random() < 0.5 else ("from", b, [a], kw))
     classes = [list(c) for c in prog["classes"]]
     classes[-1].append(st)
-    return dict(classes=classes, tags=set(prog["tags"]) | {"invalid_" + kind})
+    return dict(classes=classes, tags=set(prog["tags"]) | {"invalid_" + kind}, bound=prog.get("bound", []))
